@@ -755,7 +755,11 @@ func TestMinerHistoriesWarmVsFresh(t *testing.T) {
 		for i := 0; i < 4; i++ {
 			fund = append(fund, txgen.Transfer(txgen.Faucets[0], nil, [][2]string{{blockgen.Addr(i), "9000"}}, uint64(i+1), fmt.Sprintf("%s-f%d", salt, i)))
 		}
-		group := []byte("no-such-group")
+		group := []byte("no-such-group") // headers naming an unknown group schedule no reward
+		if rapid.Bool().Draw(t, "rewardedBlocks") {
+			group = boot.Groups().LastGroup().Id // rewards are computed from the registry and scheduled
+			stats.Class("miner_history_with_rewarded_blocks")
+		}
 		r1 := boot.Exec(root, 0, hdr(salt, 1, 1, group), fund, "fullverify")
 		if r1.Panic != nil {
 			t.Fatalf("funding panicked: %v", r1.Panic)
@@ -770,10 +774,32 @@ func TestMinerHistoriesWarmVsFresh(t *testing.T) {
 		var fingerprint []string
 		nonces := map[int]uint64{}
 		nBlocks := rapid.IntRange(3, 7).Draw(t, "nBlocks")
+		// a third of the histories start with two or three senders applying for their own proposer with the full
+		// stake and keep 350 heights between blocks (a proposer counts from 300 heights after its application):
+		// later blocks - and their siblings - then run with working proposers whose stake can be topped up
+		proposerFocus := rapid.IntRange(0, 2).Draw(t, "proposerFocus") == 0
+		nFocus := 0
+		if proposerFocus {
+			nFocus = rapid.IntRange(2, 3).Draw(t, "focusProposers")
+			stats.Class("miner_history_with_working_proposers")
+		}
 		for b := 0; b < nBlocks; b++ {
 			var txs []*types.Transaction
 			var meta []blockgen.Tx
-			for i, n := 0, rapid.IntRange(1, 3).Draw(t, "nTx"); i < n; i++ {
+			before := map[int]uint64{}
+			for k, v := range nonces {
+				before[k] = v
+			}
+			if proposerFocus && b == 0 {
+				for src := 0; src < nFocus; src++ {
+					nonces[src]++
+					md := txgen.MinerData{Type: common.MinerTypeProposer, Stake: 2000, PublicKey: "0x0102", VrfPublicKey: []byte{3, 4}}
+					x := blockgen.Tx{Tx: txgen.MinerApply(txgen.K(src), md, nonces[src], fmt.Sprintf("%s-b0-own%d", salt, src)), Kind: "miner_apply", Desc: fmt.Sprintf("apply(K%d,type1,stake2000)", src)}
+					meta = append(meta, x)
+					txs = append(txs, x.Tx)
+				}
+			}
+			for i, n := 0, rapid.IntRange(1, 3).Draw(t, "nTx"); i < n && !(proposerFocus && b == 0); i++ {
 				src := rapid.IntRange(0, 3).Draw(t, "src")
 				nonces[src]++
 				x := blockgen.GenMiner(t, src, nonces[src], fmt.Sprintf("%s-b%d-%d", salt, b, i))
@@ -781,6 +807,39 @@ func TestMinerHistoriesWarmVsFresh(t *testing.T) {
 				txs = append(txs, x.Tx)
 			}
 			nextHeight := height + rapid.SampledFrom([]uint64{1, 1, 350}).Draw(t, "heightInc")
+			if proposerFocus {
+				nextHeight = height + 350
+			}
+			// a node also executes blocks that never join its chain: competing candidates of the same height on the
+			// same parent (verified for another proposer, or met on a fork). In half of the steps the warm process
+			// executes such a sibling - other miner operations, same senders and nonces - right before the block
+			// of the history; the brand-new process below never sees the siblings.
+			if rapid.Bool().Draw(t, "siblingFirst") {
+				var sib []*types.Transaction
+				var sibMeta []blockgen.Tx
+				used := map[int]uint64{} // the sibling spends the same nonces as the block of the history
+				for k, v := range before {
+					used[k] = v
+				}
+				for i, n := 0, rapid.IntRange(1, 3).Draw(t, "nSibTx"); i < n; i++ {
+					src := rapid.IntRange(0, 3).Draw(t, "sibSrc")
+					used[src]++
+					x := blockgen.GenMiner(t, src, used[src], fmt.Sprintf("%s-s%d-%d", salt, b, i))
+					if proposerFocus && rapid.Bool().Draw(t, "sibTopUp") {
+						who := rapid.IntRange(0, nFocus-1).Draw(t, "sibTopUpWhom")
+						amt := rapid.SampledFrom([]uint64{1, 100, 1000}).Draw(t, "sibTopUpStake")
+						x = blockgen.Tx{Tx: txgen.MinerAdd(txgen.K(src), common.ToHex(txgen.K(who).ID), amt, used[src], fmt.Sprintf("%s-s%d-%d", salt, b, i)), Kind: "miner_add", Desc: fmt.Sprintf("add(K%d->proposer of K%d,+%d)", src, who, amt)}
+					}
+					sibMeta = append(sibMeta, x)
+					sib = append(sib, x.Tx)
+				}
+				sres := boot.Exec(root, height, hdr(salt+"-sibling", nextHeight, 2, group), sib, "fullverify")
+				if sres.Panic != nil {
+					t.Fatalf("executor panicked on a sibling block: %v\nblock: %s", sres.Panic, descs(sibMeta))
+				}
+				stats.Class("miner_history_sibling_block_executed_first")
+				fingerprint = append(fingerprint, "[sibling at the same height: "+descs(sibMeta)+"]")
+			}
 			res := boot.Exec(root, height, hdr(salt, nextHeight, 1, group), txs, "fullverify")
 			if res.Panic != nil {
 				t.Fatalf("executor panicked: %v\nblock: %s", res.Panic, descs(meta))
